@@ -73,11 +73,10 @@ UNSIGNED = {"uint8", "uint16", "uint32", "uint64", "size"}
 
 
 class Codec:
-    """doc_strict=True follows docs/reference/binary.md to the letter.  The default deviates from it in
-    one documented place, because every yardl backend (C++, Python, MATLAB) does: int8 and uint8 (and
-    enums/flags with those bases) are written as ONE RAW BYTE (two's complement), not as (zig-zag)
-    varints as binary.md states.  That discrepancy is reported by check C01 as a known finding; using
-    the de-facto encoding here keeps it from masking every other comparison."""
+    """Follows docs/reference/binary.md (as corrected by the repository's commit 01d5a0f: int8 and uint8,
+    and enums/flags with those bases, are one raw byte; the wider integers are (zig-zag) varints).
+    doc_strict=True selects the reading of the reference as it was before that correction (all
+    integers varints); it is kept only so that the archived finding can be replayed."""
 
     def __init__(self, env: M.Env, doc_strict: bool = False):
         self.env = env
@@ -581,6 +580,11 @@ class Codec:
             if not (isinstance(j, dict) and len(j) == 1):
                 raise Malformed("tagged union expects single-field object")
             (tag, inner), = j.items()
+            if tag == "null" and inner is None and t.nullable:
+                # ndjson.md does not say how the null case of a *tagged* union is written; the C++ writer
+                # emits {"null":null}, the Python writer null.  Both are accepted here; whether the two
+                # languages accept each other's form is decided by C03's cross-language pipelines.
+                return None
             for i, (tg, ct) in enumerate(t.cases):
                 if tg == tag:
                     return ("u", i, self.from_json(ct, inner))
